@@ -96,18 +96,27 @@ def batch_models(modname, funcname, label, kind, seed, count, lo_n=6, hi_n=12, m
     fn = getattr(importlib.import_module(modname), funcname)
     rnd = random.Random(seed)
     res = {'instances': 0, 'nontrivial': 0, 'violations': [], 'native_runs': 0}
-    if kind == 'random':
+    if kind == 'case':
+        # every shape up to hi_n features, sampled cardinalities, names that differ by letter case only (parent / child,
+        # siblings, cousins): Feature equality and hashing are by name, an implementation that folds case merges features
+        cases = []
+        for shape in R.shapes(hi_n, 2):
+            allc = list(R.all_cards(shape))
+            for cards in (allc if len(allc) <= count else rnd.sample(allc, count)):
+                cases.append(('case', shape, cards, rnd.randrange(len(CASE_NAMES))))
+    elif kind == 'random':
         cases = []
         for _ in range(count):
             shape = random_shape(rnd, rnd.randint(lo_n, hi_n))
             cases.append(('random', shape, random_cards(rnd, shape)))
     else:
         cases = [('file', p, None) for p in corpus_files(count, max_bytes, seed)][part::parts]
-    for tag, a, b in cases:
+    for case in cases:
+        tag, a, b = case[0], case[1], case[2]
         res['instances'] += 1
         res['native_runs'] += 1
         res['nontrivial'] += 1
-        args = [tag, a, b]
+        args = [tag, a, b] + list(case[3:])
         bad = replay_model(modname, funcname, *args)
         if bad:
             res['violations'].append({'label': label, 'detail': bad[0][:600], 'replay_module': __name__, 'replay_func': 'replay_model',
@@ -118,7 +127,11 @@ def batch_models(modname, funcname, label, kind, seed, count, lo_n=6, hi_n=12, m
     return res
 
 
-def replay_model(modname, funcname, tag, a, b):
+CASE_NAMES = [['App', 'app', 'APP', 'aPP', 'Cache', 'cache', 'CACHE'], ['Cache', 'Log', 'cache', 'log', 'CACHE', 'LOG', 'cAche'],
+              ['x', 'Y', 'X', 'y', 'xx', 'XX', 'xX'], ['Ünit', 'ünit', 'ÜNIT', 'Strasse', 'STRASSE', 'Straße', 'strasse']]
+
+
+def replay_model(modname, funcname, tag, a, b, name_set=0):
     import importlib
     fn = getattr(importlib.import_module(modname), funcname)
     try:
@@ -130,8 +143,13 @@ def replay_model(modname, funcname, tag, a, b):
             from .common import totuple
             shape = totuple(a)
             cards = [tuple(c) for c in b]
-            m = R.build(shape, cards)
-            where = 'shape %s cards %r' % (R.shape_str(shape), cards)
+            if tag == 'case':
+                nm = CASE_NAMES[name_set][:R.n_features(shape)]
+                m = R.build(shape, cards, names=nm)
+                where = 'shape %s cards %r names %r' % (R.shape_str(shape), cards, nm)
+            else:
+                m = R.build(shape, cards)
+                where = 'shape %s cards %r' % (R.shape_str(shape), cards)
         bad = fn(shape, cards, m)
     except Exception as exc:
         return ['%s.%s raises %s: %s on %s' % (modname.split('.')[-1], funcname, type(exc).__name__, exc, str(a)[:200])]
